@@ -409,7 +409,7 @@ prop('C16',
      design_ref='DESIGN.md section 4 C16')
 
 prop('C20',
-     category='model_checking', units=[], kani=True, kani_required=True,
+     category='other', units=[], kani=True, kani_required=True,
      technique='bounded/complete model checking (Kani/CBMC) of the real zeroize / drop / Debug code of frost-core at toy ciphersuites; no deductive contract can express "no copy is left in the '
                'storage it occupied" (Verus erases Drop and has no memory model for deallocated storage)',
      level_text='Kani harnesses over the REAL frost-core code monomorphised at toy ciphersuites: for every secret-bearing type (SigningKey, SigningShare, Nonce, SecretShare, KeyPackage, '
